@@ -92,7 +92,7 @@ def run_session(bdir, root, s, rnd_seed, timeout=90, extra_env=None):
             # learn some legal root moves from a MultiPV probe (their legality is verified by the spec)
             eng.send("setoption name MultiPV value 6")
             eng.send("go depth 1")
-            lines, ok = eng.read_until(lambda l: l.startswith("bestmove"), 30)
+            lines, ok = eng.read_until(lambda l: l.startswith("bestmove"), 180)
             cand = []
             for l in lines:
                 d = uci.parse_info(l, wtm_root)
